@@ -443,6 +443,9 @@ PROPS = {
     "C18": {
         "class_prefixes": ["c18-", "harness-crash"],
         "subs": [
+            {"name": "frame", "n_quick": 300, "n_thorough": 6000, "model": "coq/Frame/SessionSplit.v, coq/Frame/Transfer.v",
+             "rule": "ssplit / xfer cases of C06/C07 with transfers that carry a transactional state: every frame a transactional post is cut into "
+                     "(by the session's split and by the frame encoder) carries the transaction in its state (class c18-split-drops-txn-state)"},
             {"name": "txnm", "n_quick": 500, "n_thorough": 5000, "model": "coq/Txn/Manager.v",
              "rule": "listener with a control-link acceptor and a receiving application on every accepted link, against a scripted byte-level controller: every script of length <= 3 "
                      "(thorough <= 4) over the model's alphabet after prefixes with 0, 1 and 2 declares and with two control links (control link attach / closing detach, data link "
@@ -467,6 +470,12 @@ PROPS = {
     "C19": {
         "class_prefixes": ["c19-", "harness-crash"],
         "subs": [
+            {"name": "saslx", "n_quick": 30, "n_thorough": 600, "oracle": False,
+             "rule": "replay: the library's SCRAM client (SHA-1/256/512) logs in through a tap, the recorded client bytes are played back on new connections "
+                     "of the same acceptor and must be refused every time (the server nonce is fresh per negotiation); anon: a listener with the ANONYMOUS "
+                     "mechanism against every sequence of up to 3 actions over SASL header / AMQP header / sasl-init with an offered or another mechanism / "
+                     "sasl-response / sasl-challenge / open, each followed by the AMQP header and open a granted client would send, plus random longer ones: "
+                     "granted only when the client began with the SASL header and a sasl-init"},
             {"name": "saslm", "n_quick": 300, "n_thorough": 3000, "model": "coq/Auth/SaslListener.v",
              "rule": "the listener cases of the sasl sub whose client actions are whole well-formed actions (SASL header, AMQP header, init with valid / invalid "
                      "credentials or client-first, response correct / incorrect, a SASL frame a client must not send, AMQP open, EOF), abstracted to that alphabet; "
